@@ -80,7 +80,7 @@ print(json.dumps(out))
 def cold_concurrent(rep, rows, ref, n_runs):
     import os
     import subprocess
-    idx = [i for i, r in enumerate(rows) if r[3] in ("valid-all", "valid-required", "viol:type", "viol:required") and ref[i][0] != "crash"]
+    idx = [i for i, r in enumerate(rows) if r[3] in ("valid-all", "valid-required", "valid-alt", "viol:type", "viol:required") and ref[i][0] != "crash"]
     # one version per run: all eight threads meet the version's lazily built state at once
     per = {"1.6": [i for i in idx if rows[i][0] == "1.6"][:24], "2.0.1": [i for i in idx if rows[i][0] == "2.0.1"][:24]}
     procs = []
@@ -120,7 +120,7 @@ def body_factory(tier, seed):
         import ocpp.messages as M
         rng = random.Random(seed * 97 + 3)
         rows = V.generate("quick", seed)
-        rows = [r for r in rows if r[3] in ("valid-all", "valid-required", "viol:type", "viol:required", "viol:enum", "viol:multipleOf", "cross")
+        rows = [r for r in rows if r[3] in ("valid-all", "valid-required", "valid-alt", "viol:type", "viol:required", "viol:enum", "viol:multipleOf", "cross")
                 or r[2] in ("SetChargingProfile", "RemoteStartTransaction", "GetCompositeSchedule")]
         rng.shuffle(rows)
         rows = rows[: (900 if tier == "quick" else 6000)] + hostile_rows()
@@ -242,6 +242,49 @@ def body_factory(tier, seed):
                         rep.violation("C13:concurrent:%s:%s:%s" % (r[0], r[1], r[2]),
                                       "%s %s %s: %r with %d validations in flight in the executor, %r alone" % (r[0], r[1], r[2], v, len(sample), ref[i]),
                                       {"kind": "async", "request": [r[0], r[1], r[2], r[4]], "concurrent": v, "alone": ref[i]})
+            # 4d. a burst of HEAVY validations in flight at once (a central system whose charge points reconnect together
+            #     and flush buffered meter values): several seconds of validation work queued in the executor; how long a
+            #     job waits there or is slowed down by its neighbours must not turn into a verdict
+            import time as _time
+
+            def meter_values(n, bad=False):
+                return {"connectorId": 1, "transactionId": 1, "meterValue": [
+                    {"timestamp": "2024-01-01T00:00:00Z", "sampledValue": [{"value": str(i), "measurand": "Voltage" if not (bad and i == n - 1) else "Volts",
+                                                                            "unit": "V", "phase": "L1", "context": "Sample.Periodic"}]} for i in range(n)]}
+            probe = Call("p", "MeterValues", meter_values(300))
+            M._validate_payload(probe, "1.6")
+            t0 = _time.perf_counter()
+            M._validate_payload(probe, "1.6")
+            per_value = max((_time.perf_counter() - t0) / 300, 1e-6)
+            n_values = max(300, min(6000, int(0.1 / per_value)))
+            n_big = 40 if tier == "quick" else 120
+
+            async def burst():
+                M.ASYNC_VALIDATION = True
+
+                async def one(k):
+                    bad = k % 10 == 9
+                    msg = Call("b%d" % k, "MeterValues", meter_values(n_values, bad)) if k < n_big else \
+                        CallResult("h%d" % k, {"currentTime": "2024-01-01T00:00:00Z"}, "Heartbeat")
+                    try:
+                        await validate_payload(msg, "1.6" if k % 2 or k < n_big else "2.0.1")
+                        return k, "accept", bad
+                    except OCPPError as e:
+                        return k, "reject:" + e.code, bad
+                    except Exception as e:  # noqa: BLE001
+                        return k, "crash:" + type(e).__name__, bad
+                return await asyncio.gather(*[one(k) for k in range(n_big + 6)])
+            t0 = _time.perf_counter()
+            res_b = asyncio.run(burst())
+            rep.coverage["heavy_burst"] = {"validations": n_big + 6, "values_each": n_values, "seconds": round(_time.perf_counter() - t0, 1)}
+            for k, v, bad in res_b:
+                rep.count("burst:%d" % k, nontrivial=False)
+                want = "reject:FormatViolation" if bad and k < n_big else "accept"
+                if v != want:
+                    rep.violation("C13:heavy-burst:%s" % ("MeterValues" if k < n_big else "Heartbeat"),
+                                  "%d MeterValues requests of %d meter values each validated at once in the executor: number %d got %r, "
+                                  "alone it gets %r" % (n_big, n_values, k, v, want),
+                                  {"kind": "heavy-burst", "n_big": n_big, "n_values": n_values, "index": k, "verdict": v, "alone": want})
         finally:
             M.ASYNC_VALIDATION = old
         # 4c. cold start under concurrency: fresh interpreters in which the very first validations of a version happen
